@@ -23,6 +23,23 @@ MALFORMED = [b"abc^\r", b"abc^\r\n", b"cmd /c foo^\r", b"&#xzz;" * 5, b"FromBase
              b",".join(b"%d" % (i % 256) for i in range(600)) + b" -bxor $k", b"MZ" + b"\x00" * 60, b"zz MZ" + b"\x01" * 61, b"MZ" + b"\x00" * 62, b"MZ" + b"\x00" * 59, b"(((((((((((", b"))))))))))", b'""""""""""', b"%%%%%%%%", b"http://" + b"a" * 300, b"a@" * 50, b"1.2.3.4." * 20]
 
 
+KNOWN_MATCHERS = {"f26_deep_context_nesting": lambda v: v.get("class") == "F26"}
+
+# undecoded contexts nest without bound (the engine keeps them on an explicit stack), the views recurse: about 1000 levels exhaust the interpreter's recursion limit (known finding F26)
+DEEP = [b"createobject(" * 1200 + b"x" + b")" * 1200, b"CreateObject(" * 1100 + b'"a"' + b")" * 1100]
+
+
+def tree_height(tree):
+    h, level = 0, [tree]
+    while level:
+        nxt = [c for n in level for c in n.children]
+        if not nxt:
+            break
+        h += 1
+        level = nxt
+    return h
+
+
 def pe_blob(section_end):
     import struct
     hdr = bytearray(0x200)
@@ -43,18 +60,19 @@ def run(ctx):
     regex_probe.run_regex_probe(ctx, per_regex_quick=25, per_regex_thorough=400)
     from multidecoder.multidecoder import Multidecoder
     md = Multidecoder()
-    inputs = list(MALFORMED) + [b"junk " + pe_blob(0x5000) + b" tail", pe_blob(0x300) + b"\x00" * 0x100, b"zz" + pe_blob(0x200)[:0x90]]
+    inputs = list(MALFORMED) + [b"junk " + pe_blob(0x5000) + b" tail", pe_blob(0x300) + b"\x00" * 0x100, b"zz" + pe_blob(0x200)[:0x90]] + DEEP
     inputs += corpus_gen.gen_inputs(ctx.rng, ctx.budget(1500, 30000))
     compare_budget = ctx.budget(90, 2500)
     args, outs = [], {}
     for i, data in enumerate(inputs):
         if len(data) > 20000:
             continue
-        depth = 10 if i < len(MALFORMED) + 3 else ctx.rng.choice([-1, 0, 1, 2, 3, 10, 10, 10])
+        depth = 10 if i < len(MALFORMED) + 3 + len(DEEP) else ctx.rng.choice([-1, 0, 1, 2, 3, 10, 10, 10])
         with ToolRecorder() as rec:
             try:
                 tree = with_timeout(lambda: md.scan(data, depth), 30)
-                out = ["ok", node_val(tree)]
+                # (the harness's own canonicaliser recurses: not used on trees deeper than the interpreter allows - those are not compared with the model)
+                out = ["ok", node_val(tree) if tree_height(tree) < 400 else None]
             except ScanTimeout:
                 out, tree = ["hang"], None
             except RecursionError:
@@ -69,8 +87,8 @@ def run(ctx):
         if tree.children:
             ctx.nontrivial.add(("scan", data, depth))
         for m in views_total(tree):
-            ctx.violation("views", [depth, data], m)
-        if len(args) < compare_budget and len(data) < (900 if not ctx.thorough else 1500):
+            ctx.violation("views", [depth, data], m, cls="F26" if "RecursionError" in m and tree_height(tree) >= 900 else None)
+        if len(args) < compare_budget and len(data) < (900 if not ctx.thorough else 1500) and out[1] is not None:
             pe_t, xor_t = rec.tables()
             a = [depth, data, pe_t, xor_t]
             args.append(a)
